@@ -29,18 +29,18 @@ type sampleEntry struct {
 }
 
 type statsT struct {
-	mu          sync.Mutex
-	Evaluations int64
-	Nontrivial  int64 // evaluations that were non-trivial (not de-duplicated)
-	hashes      map[uint64]struct{}
-	hashOverflw int64
+	mu           sync.Mutex
+	Evaluations  int64
+	Nontrivial   int64 // evaluations that were non-trivial (not de-duplicated)
+	hashes       map[uint64]struct{}
+	hashOverflw  int64
 	bulkDistinct int64 // non-trivial cases that are distinct by construction (sweeps), not hashed
-	Labels      map[string]int64
-	Excluded    map[string]int64
-	first       []sampleEntry // first few non-trivial cases
-	lowest      []sampleEntry // non-trivial cases with the lowest hashes (a deterministic "random" sample)
-	Notes       []string
-	Extra       map[string]interface{}
+	Labels       map[string]int64
+	Excluded     map[string]int64
+	first        []sampleEntry // first few non-trivial cases
+	lowest       []sampleEntry // non-trivial cases with the lowest hashes (a deterministic "random" sample)
+	Notes        []string
+	Extra        map[string]interface{}
 }
 
 var stats = &statsT{
